@@ -489,3 +489,148 @@ def project_const(kind: str, v: Any) -> Dict[str, Any]:
     if kind == "enumset":
         return {"k": "enumset", "v": sorted(cps(x.value) for x in v)}
     raise ValueError(kind)
+
+
+# ---------------------------------------------------------------------------------------------
+# structural fingerprints of disagreements (keys of findings)
+# ---------------------------------------------------------------------------------------------
+
+
+def expr_shape(e: Dict[str, Any]) -> str:
+    """The construct an invariant is made of, without names and constants: e.g. implies(issome,cmp.le(len,int))."""
+    op = e["op"]
+    if op in ("self", "prop", "var", "int", "str", "enumlit"):
+        return {"prop": "prop", "self": "self", "var": "var"}.get(op, op)
+    if op == "attr":
+        return "attr"
+    if op == "len":
+        return "len"
+    if op == "cmp":
+        return "cmp.%s(%s,%s)" % (e["o"], expr_shape(e["a"]), expr_shape(e["b"]))
+    if op in ("isnone", "issome", "flag"):
+        return op
+    if op == "not":
+        return "not(%s)" % expr_shape(e["a"])
+    if op in ("and", "or"):
+        return "%s(%s)" % (op, ",".join(expr_shape(a) for a in e["args"]))
+    if op == "implies":
+        return "implies(%s,%s)" % (expr_shape(e["a"]), expr_shape(e["b"]))
+    if op in ("all", "any"):
+        return "%s(%s)" % (op, expr_shape(e["body"]))
+    if op == "match":
+        return "match"
+    if op == "in":
+        return "in"
+    raise ValueError(op)
+
+
+def expr_props(e: Dict[str, Any]) -> List[str]:
+    """Names of the properties of `self` an expression reads ("" for the value itself)."""
+    op = e["op"]
+    if op == "prop":
+        return [e["n"]]
+    if op == "self":
+        return [""]
+    out: List[str] = []
+    for k in ("a", "b", "over", "body"):
+        if k in e and isinstance(e[k], dict):
+            out.extend(expr_props(e[k]))
+    for a in e.get("args", []):
+        out.extend(expr_props(a))
+    return out
+
+
+def find_invariant(model: Dict[str, Any], desc: str) -> Optional[Dict[str, Any]]:
+    for c in list(model["classes"]) + list(model["cprims"]):
+        for inv in c["invs"]:
+            if inv["desc"] == desc:
+                return inv
+    return None
+
+
+def value_feats(v: Dict[str, Any]) -> List[str]:
+    """Same features as Feats in specs/CrossSdk.tla."""
+    out = set()
+    t = v["t"]
+    if t == "str":
+        if any(c > 0xFFFF for c in v["v"]):
+            out.add("astral")
+        if v["v"] and v["v"][-1] == 10:
+            out.add("lf_end")
+        if any(0x7F < c <= 0xFFFF for c in v["v"]):
+            out.add("non_ascii")
+    elif t == "int":
+        if int_of(v) in (2**63 - 1, -(2**63)):
+            out.add("int64_extreme")
+    elif t == "list":
+        for x in v["v"]:
+            out.update(value_feats(x))
+    elif t == "inst":
+        for x in v["f"].values():
+            out.update(value_feats(x))
+    return sorted(out)
+
+
+def navigate(x: Dict[str, Any], path: Sequence[str]) -> Optional[Dict[str, Any]]:
+    cur = x
+    for seg in path:
+        try:
+            if seg.startswith("#"):
+                cur = cur["v"][int(seg[1:])]
+            else:
+                cur = cur["f"][seg]
+        except (KeyError, IndexError, TypeError):
+            return None
+    return cur
+
+
+def error_key(model: Dict[str, Any], x: Dict[str, Any], path: Sequence[str], cause: str) -> Dict[str, Any]:
+    """Fingerprint of one differing (path, description): the construct of the invariant and the features of the
+    values it reads (astral characters, trailing line feed, 64-bit extremes)."""
+    inv = find_invariant(model, cause)
+    if inv is None:
+        return {"shape": "unknown_description", "operand_feats": ""}
+    owner = navigate(x, path)
+    feats: List[str] = []
+    if owner is not None:
+        for p in expr_props(inv["e"]):
+            v = owner if p == "" else (owner.get("f", {}).get(p) if owner.get("t") == "inst" else None)
+            if v is not None:
+                feats.extend(value_feats(v))
+    return {"shape": expr_shape(inv["e"]), "operand_feats": ",".join(sorted(set(feats)))}
+
+
+def type_at(model: Dict[str, Any], root: str, loc: Sequence[str]) -> str:
+    """Kind of the declared type at a document location (by wire names), e.g. int, opt.str, list, class, modelType."""
+    t: Dict[str, Any] = {"k": "class", "n": root}
+    opt = False
+    for seg in loc:
+        opt = False
+        if t["k"] == "opt":
+            t = t["of"]
+        if seg.startswith("#"):
+            if t["k"] != "list":
+                return "?"
+            t = t["of"]
+            continue
+        if t["k"] != "class":
+            return "?"
+        if seg == "modelType":
+            return "modelType"
+        found = None
+        names = [c["name"] for c in model["classes"]]
+        # the property may belong to any concrete class below the declared one
+        for c in model["classes"]:
+            for p in all_props(model, c["name"]):
+                if p["json"] == seg:
+                    found = p
+        if found is None:
+            return "?"
+        t = found["type"]
+        if t["k"] == "opt":
+            opt = True
+            t = t["of"]
+    k = t["k"]
+    if k == "cprim":
+        k = "cprim." + cprim_prim(model, t["n"])
+    return ("opt." if opt else "") + k
